@@ -222,14 +222,25 @@ def rule_scan(facts, rep):
     b = facts.body("anstyle_lossy", L + "find_xterm_match")
     rep.check(hir.is_local(hir.stmts_of(b["hir"])[-1], "best_index"), "scan", b["path"], "returns-best_index", "", loc(b))
     b = facts.body("anstyle_lossy", L + "palette::Palette::find_match")
-    tail = hir.simp(hir.stmts_of(b["hir"])[-1])
+    # the result is the Some-projection of Ansi256Color(best_index as u8).into_ansi() — `if let`, `match` or `let .. else`
+    O = hir.Origins(b["hir"])
     ok = False
-    if tail.get("k") == "if":
-        c = hir.simp(tail["c"])
-        if c.get("k") == "letexpr" and hir.is_call(hir.simp(c["init"]), "anstyle::color::Ansi256Color::into_ansi"):
-            arg = hir.simp(hir.simp(c["init"])["args"][0])
-            ok = arg.get("ctor") == "anstyle::color::Ansi256Color" and hir.is_local(hir.simp(arg["args"][0]), "best_index") and \
-                hir.is_local(ac.single_expr(tail["t"]), c["pat"]["pats"][0].get("name"))
+    vals = []
+    tail = hir.simp(hir.stmts_of(b["hir"])[-1])
+    if tail.get("k") in ("if", "match"):
+        vals = O._branch_values(tail) or []
+    elif tail.get("k") == "local":
+        vals = [tail]
+    good = 0
+    for v in vals:
+        src, proj = O.of(v)
+        if hir.is_call(src, "anstyle::color::Ansi256Color::into_ansi") and proj == ("Some",):
+            arg = hir.simp(src["args"][0])
+            if arg.get("ctor") == "anstyle::color::Ansi256Color" and hir.is_local(hir.simp(arg["args"][0]), "best_index"):
+                good += 1
+    # any other branch value is the unreachable fallback (it must sit behind the out-of-bounds index that panics)
+    others = [v for v in vals if not (hir.is_call(O.of(v)[0], "anstyle::color::Ansi256Color::into_ansi"))]
+    ok = good == 1 and len(others) <= 1
     rep.check(ok, "scan", b["path"], "returns-into_ansi(best_index)", "best_index < 16 (scan bound) so into_ansi is Some: the fallback arm is unreachable", loc(b))
 
 
